@@ -607,10 +607,11 @@ theorem apply_frameM (c : CS) (hf : c.fail = false) (x : Call) (hx : PlainOk x) 
     · exact ⟨congrArg (·.2.2.2.1) h, by rw [rest_out h]⟩
   | _ => exact absurd hx (by simp [PlainOk])
 
-structure M (c : CS) (Ms : List (Int × List (Int × Int))) : Prop where
+/-- the pending minimize table against the minimize statements `Ms` given in this step; `base` = the statements earlier steps emitted (`[]` in a single step) -/
+structure M (c : CS) (Ms : List (Int × List (Int × Int))) (base : List (Int × List (Int × Int)) := []) : Prop where
   cost  : ∀ X p, costM X c.minimize p = costM X (Ms.map (fun q => (q.1, q.2.map flipNeg))) p
   nz    : ∀ pl ∈ c.minimize, ∀ q ∈ pl.2, q.1 ≠ 0
-  nomin : minsOf c.out = []
+  nomin : minsOf c.out = base
 
 theorem flipNeg_ne (q : Int × Int) (h : q.1 ≠ 0) : (flipNeg q).1 ≠ 0 := by
   unfold flipNeg; split <;> simp <;> omega
@@ -640,7 +641,7 @@ theorem insertMin_nz (m : List (Int × List (Int × Int))) (p : Int) (ls : List 
         · subst h; exact hm (k, l) (by simp) q hq
         · exact ih (fun pl' h' => hm pl' (by simp [h'])) pl h q hq
 
-theorem M.step {c : CS} {Ms} (hM : M c Ms) (hf : c.fail = false) (x : Call) (hx : PlainOk x) : M (c.apply x) (Ms ++ minsOf [x]) := by
+theorem M.step {c : CS} {Ms base} (hM : M c Ms base) (hf : c.fail = false) (x : Call) (hx : PlainOk x) : M (c.apply x) (Ms ++ minsOf [x]) base := by
   obtain ⟨h1, h2⟩ := apply_frameM c hf x hx
   cases x with
   | minimize prio lits =>
@@ -688,9 +689,9 @@ theorem M.step {c : CS} {Ms} (hM : M c Ms) (hf : c.fail = false) (x : Call) (hx 
     exact ⟨fun X p => by rw [h1]; exact hM.cost X p, by rw [h1]; exact hM.nz, h2.trans hM.nomin⟩
   | _ => exact absurd hx (by simp [PlainOk])
 
-theorem run_plainM {c : CS} {P O defs Ms} {t : T} (hj : J c P defs) (hk : K c O defs) (hM : M c Ms) (hxi : XI c t) (ds : List Call) (hx : ∀ d ∈ ds, PlainOk d) :
-    ∃ defs', J (ds.foldl CS.apply c) (P ++ (rulesOf ds).filter kept) defs' ∧ K (ds.foldl CS.apply c) (O ++ srcOuts ds) defs' ∧
-      M (ds.foldl CS.apply c) (Ms ++ minsOf ds) ∧ XI (ds.foldl CS.apply c) (t.run ds) := by
+theorem run_plainM {c : CS} {P O defs Ms base E mbase} {t : T} (hj : J c P defs) (hk : K c O defs base E) (hM : M c Ms mbase) (hxi : XI c t) (ds : List Call) (hx : ∀ d ∈ ds, PlainOk d) :
+    ∃ defs', J (ds.foldl CS.apply c) (P ++ (rulesOf ds).filter kept) defs' ∧ K (ds.foldl CS.apply c) (O ++ srcOuts ds) defs' base E ∧
+      M (ds.foldl CS.apply c) (Ms ++ minsOf ds) mbase ∧ XI (ds.foldl CS.apply c) (t.run ds) := by
   induction ds generalizing c P O defs Ms t with
   | nil => exact ⟨defs, by simpa [rulesOf] using hj, by simpa [srcOuts] using hk, by simpa [minsOf] using hM, hxi⟩
   | cons d r ih =>
@@ -789,9 +790,9 @@ theorem final_mins (c : CS) (hf : c.fail = false) (hfs : FlushShape c.flushMinim
 theorem M.init (ext : Bool) : M ({ ext := ext } : CS) [] :=
   ⟨fun _ _ => rfl, (by intro pl h; cases h), rfl⟩
 
-theorem M.emit {c : CS} {Ms} (hM : M c Ms) (x : Call) (hx : minOf x = none) : M (c.emit x) Ms :=
+theorem M.emit {c : CS} {Ms base} (hM : M c Ms base) (x : Call) (hx : minOf x = none) : M (c.emit x) Ms base :=
   ⟨hM.cost, hM.nz, (by
-    show minsOf (c.out ++ [x]) = []
+    show minsOf (c.out ++ [x]) = base
     rw [minsOf_append, hM.nomin]; simp [minsOf, hx])⟩
 
 /-- all invariants hold just before `endStep` -/
